@@ -245,7 +245,8 @@ Definition ura_value (k ra_min ra_max x : Z) : Z :=
 Inductive scr :=
 | ScrNone
 | ScrUniform (k ra_min ra_max : Z) (draws : list Z)       (* UniformRAScramblingMethod *)
-| ScrI3Time (times ras : list Z)                         (* I3TimeScramblingMethod, I3SeasonalVariation... *)
+| ScrI3Time (times ras : list Z)                         (* I3TimeScramblingMethod *)
+| ScrSeasonal (times ras : list Z)                       (* I3SeasonalVariationTimeScramblingMethod *)
 | ScrTime (times ras decs : list Z).                     (* core TimeScramblingMethod *)
 
 Definition doc_fields (m : scr) : list fid :=
@@ -253,6 +254,7 @@ Definition doc_fields (m : scr) : list fid :=
   | ScrNone => []
   | ScrUniform _ _ _ _ => [F_RA]
   | ScrI3Time _ _ => [F_TIME; F_RA]
+  | ScrSeasonal _ _ => [F_TIME; F_RA]
   | ScrTime _ _ _ => [F_TIME; F_RA; F_DEC]
   end.
 
@@ -268,15 +270,21 @@ Definition scramble (m : scr) (t : tloc) : M unit :=
       mdo bt <-- alloc times ;;
       mdo _ <-- t_setitem t F_TIME bt ;;
       mdo _ <-- t_getitem t F_AZI ;;
-      mdo br <-- alloc ras ;;
+      mdo br <-- alloc (map i3t_ra_store ras) ;;       (* the float64 result of azi_to_ra_transform, as it is *)
+      t_setitem t F_RA br
+  | ScrSeasonal times ras =>
+      mdo bt <-- alloc times ;;
+      mdo _ <-- t_setitem t F_TIME bt ;;
+      mdo _ <-- t_getitem t F_AZI ;;
+      mdo br <-- alloc (map seas_ra_store ras) ;;
       t_setitem t F_RA br
   | ScrTime times ras decs =>
       mdo bt <-- alloc times ;;
       mdo _ <-- t_setitem t F_TIME bt ;;
       mdo _ <-- t_getitem t F_AZI ;;
       mdo _ <-- t_getitem t F_ZEN ;;
-      mdo br <-- alloc ras ;;
-      mdo bd <-- alloc decs ;;
+      mdo br <-- alloc (map ct_radec_store ras) ;;
+      mdo bd <-- alloc (map ct_radec_store decs) ;;
       mdo _ <-- t_setitem t F_RA br ;;
       t_setitem t F_DEC bd
   end.
@@ -709,6 +717,7 @@ Definition ex_ops : list op :=
     UnblindCopy 0; InitPre 0 []; InitSelect 0 ESAll; InitFinish 0 (Some (F_TIME, [2; 1; 0])) [(8%nat, FAlias F_RA)];
     GenBkgMC 1 [F_RA] [9%nat] (Some (SIdx [0; 1; 2])) [0; 0; 2] (ScrI3Time [1; 2; 3] [4; 5; 6]);
     GenBkgMC 1 [F_RA] [9%nat] None [2; 1] (ScrTime [1; 2] [4; 5] [6; 7]);
+    GenBkgFixed 1 (ScrSeasonal [7; 8; 9] [1; 2; 3]);
     GenBkgComp 0 [F_RA] [9%nat] (ScrUniform 29 0 4618760256179416344 [4618760256179416343; 17; 5; 0])
                [(11%nat, [1; 2; 3; 4])] None [3; 3; 0];
     GenSig 1 1 0 [mkG [2] [] [false] []]; Merge 1; InitSet 1; InitFinish 1 None []; Evaluate 1;
